@@ -1586,3 +1586,681 @@ Proof.
   rewrite !nm_filter_empty_mask in H. rewrite merge_into_empty, prune_empty_nil in H. fold (trie rs) in H.
   destruct (nm_prune (trie rs) (VM sf)); inversion H. reflexivity.
 Qed.
+
+(* ------------------------------------------------------------------------------------------- *)
+(* NIL update mask with a writable mask: dst is pruned to the writable paths, then the            *)
+(* writable-filtered src is merged in                                                             *)
+
+(* Filter keeps what lies at or below one of its paths *)
+Theorem filter_keeps : forall p m sf s1f,
+  nm_filter m (VM sf) = Some (VM s1f) -> nm_empty m = false -> leaf_at m p ->
+  get_at p (VM s1f) = get_at p (VM sf).
+Proof.
+  induction p as [|k r IH]; intros m sf s1f Hf Hne Hl; [destruct Hl|].
+  pose proof (filter_lookup _ _ _ Hf Hne k) as Hfl. simpl in Hl.
+  destruct (nm_lookup k m) as [sub|] eqn:El; [|destruct Hl].
+  simpl get_at. rewrite Hfl. change (vget k (VM sf)) with (alookup k sf).
+  destruct (alookup k sf) as [x|] eqn:Es; [|reflexivity].
+  unfold filter_field. destruct (nm_empty sub) eqn:Esub; [reflexivity|].
+  assert (r <> []) as Hr by (eapply leaf_at_nonnil; eauto).
+  destruct x as [s|fx|l|kv].
+  - reflexivity.
+  - destruct (nm_filter sub (VM fx)) as [x1|] eqn:E1.
+    + destruct (nm_filter_is_msg _ _ _ E1) as [fx1 ->]. eapply IH; eauto.
+    + exfalso. rewrite nm_filter_fields, Hne in Hf.
+      destruct (otraverse _ sf) as [l'|] eqn:Eo; [|discriminate].
+      apply (otraverse_some_all _ _ _ Eo (k, VM fx) (alookup_in _ _ _ Es)).
+      cbv beta iota. rewrite El. unfold filter_field. rewrite Esub, E1. reflexivity.
+  - destruct (otraverse _ l); simpl; rewrite ?get_at_nonmsg; auto.
+  - simpl. rewrite get_at_nonmsg; auto.
+Qed.
+
+Lemma get_at_cons : forall k r v, get_at (k :: r) v = match vget k v with Some x => get_at r x | None => None end.
+Proof. reflexivity. Qed.
+
+(* merging into a message that has nothing at p puts there exactly what src has at p *)
+Theorem merge_at_fresh : forall p sch ty df sf,
+  p <> [] -> get_at p (VM df) = None ->
+  get_at p (proto_merge sch ty (VM df) (VM sf)) = get_at p (VM sf).
+Proof.
+  induction p as [|k r IH]; intros sch ty df sf Hne Hd; [congruence|].
+  rewrite get_at_cons in Hd. rewrite !get_at_cons. rewrite proto_merge_lookup. change (vget k (VM sf)) with (alookup k sf).
+  change (vget k (VM df)) with (alookup k df) in Hd.
+  destruct (alookup k df) as [d|] eqn:Ed; destruct (alookup k sf) as [x|] eqn:Es; try reflexivity.
+  - destruct r as [|k' r']; [discriminate|].
+    unfold merge_val.
+    destruct x as [s|fx|l|kv]; destruct d as [sd|fd|ld|kd]; try reflexivity;
+      try (rewrite merge_into_empty; reflexivity).
+    apply IH; [discriminate|exact Hd].
+  - destruct (cleared_by sch ty sf k); [reflexivity|exact Hd].
+Qed.
+
+(* merging a message filtered to a mask leaves alone what the mask does not reach *)
+Theorem merge_filtered_frame : forall q sch ty m df sf s1f,
+  nm_filter m (VM sf) = Some (VM s1f) -> nm_empty m = false -> rsafe_t m (VM sf) = true ->
+  outside_t sch ty m q ->
+  get_at q (proto_merge sch ty (VM df) (VM s1f)) = get_at q (VM df).
+Proof.
+  induction q as [|k r IH]; intros sch ty m df sf s1f Hf Hne Hrs Ho; [destruct Ho|].
+  simpl in Ho. destruct Ho as [Hns Ho].
+  rewrite !get_at_cons. rewrite proto_merge_lookup. rewrite (cleared_false _ _ _ _ _ _ Hf Hne Hns).
+  pose proof (filter_lookup _ _ _ Hf Hne k) as Hfl. unfold vget in Hfl at 1. simpl fields_of in Hfl.
+  change (vget k (VM df)) with (alookup k df).
+  destruct (nm_lookup k m) as [sub|] eqn:El.
+  - destruct Ho as [Hsne Ho].
+    assert (r <> []) as Hr by (eapply outside_p_nonnil; eapply outside_t_p; eauto).
+    destruct (alookup k sf) as [x|] eqn:Es.
+    + destruct (rsafe_t_field _ _ _ _ _ Hrs Es El Hsne) as [Hxm Hxs].
+      destruct x as [|fx| |]; try discriminate.
+      unfold filter_field in Hfl. rewrite Hsne in Hfl.
+      destruct (nm_filter sub (VM fx)) as [x1|] eqn:E1.
+      * destruct (nm_filter_is_msg _ _ _ E1) as [fx1 ->]. rewrite Hfl.
+        destruct (alookup k df) as [[| fd | |]|] eqn:Ed; unfold merge_val.
+        -- rewrite (IH _ _ _ [] _ _ E1 Hsne Hxs Ho). destruct r; [congruence|reflexivity].
+        -- apply (IH _ _ _ fd _ _ E1 Hsne Hxs Ho).
+        -- rewrite (IH _ _ _ [] _ _ E1 Hsne Hxs Ho). destruct r; [congruence|reflexivity].
+        -- rewrite (IH _ _ _ [] _ _ E1 Hsne Hxs Ho). destruct r; [congruence|reflexivity].
+        -- rewrite <- (merge_into_empty sch (sub_type sch ty k) fx1).
+           rewrite (IH _ _ _ [] _ _ E1 Hsne Hxs Ho). destruct r; [congruence|reflexivity].
+      * rewrite Hfl. destruct (alookup k df); reflexivity.
+    + rewrite Hfl. destruct (alookup k df); reflexivity.
+  - rewrite Hfl. destruct (alookup k df); reflexivity.
+Qed.
+
+Lemma nm_prune_is_msg : forall m f v', nm_prune m (VM f) = Some v' -> exists f', v' = VM f'.
+Proof.
+  intros m f v' H. rewrite nm_prune_fields in H. destruct (nm_empty m); [inversion H; eauto|].
+  destruct (otraverse _ f); inversion H. eauto.
+Qed.
+
+Lemma merge_nil_update_stages : forall sch ty w ws rm dst sf post src',
+  merge sch ty None (Some (w :: ws)) rm dst (VM sf) = MOk post src' ->
+  exists s1f d1,
+    nm_filter (trie (w :: ws)) (VM sf) = Some (VM s1f) /\
+    nm_prune (trie (w :: ws)) dst = Some d1 /\
+    match rm with
+    | None => post = proto_merge sch ty d1 (VM s1f)
+    | Some rs => nm_prune (trie rs) (proto_merge sch ty d1 (VM s1f)) = Some post
+    end.
+Proof.
+  intros sch ty w ws rm dst sf post src' H.
+  unfold merge, merge_gen in H. cbv zeta in H. simpl mask_paths in H. cbv iota beta in H.
+  change (nested_of_paths (normalize_paths [])) with (NM []) in H. fold (trie (w :: ws)) in H.
+  destruct (nm_filter (trie (w :: ws)) (VM sf)) as [s1|] eqn:E1; [|discriminate].
+  destruct (nm_filter_is_msg _ _ _ E1) as [s1f ->].
+  destruct (nm_prune (trie (w :: ws)) dst) as [d1|] eqn:Ed; [|discriminate].
+  rewrite nm_filter_empty_mask, prune_empty_nil in H.
+  exists s1f, d1. repeat split; auto.
+  destruct rm as [rs|].
+  - fold (trie rs) in H. destruct (nm_prune (trie rs) _) as [d4|]; inversion H. reflexivity.
+  - inversion H. reflexivity.
+Qed.
+
+(* FRAME, nil update mask: what the writable mask (and the reset mask) does not reach is unchanged *)
+Theorem frame_nil_update : forall sch ty ws rm dst src post src',
+  schema_names_ok sch = true ->
+  conforms sch ty dst = true -> conforms sch ty src = true ->
+  fm_valid sch ty ws = true -> ws <> [] ->
+  merge sch ty None (Some ws) rm dst src = MOk post src' ->
+  forall q, outside_t sch ty (trie ws) q -> outside_p (trie (mask_paths rm)) q ->
+  get_at q post = get_at q dst.
+Proof.
+  intros sch ty ws rm dst src post src' Hs Hcd Hcs Hv Hne H q Ho Hor.
+  destruct dst as [|df| |]; try discriminate. destruct src as [|sf| |]; try discriminate.
+  destruct ws as [|w ws]; [congruence|].
+  destruct (valid_trie_facts sch ty (w :: ws) (VM sf) Hs Hv Hcs) as [Hrs Hte]. specialize (Hte Hne).
+  destruct (merge_nil_update_stages _ _ _ _ _ _ _ _ _ H) as [s1f [d1 [Hf [Hp Hr]]]].
+  destruct (nm_prune_is_msg _ _ _ Hp) as [d1f ->].
+  assert (get_at q (proto_merge sch ty (VM d1f) (VM s1f)) = get_at q (VM df)) as E.
+  { rewrite (merge_filtered_frame q sch ty _ d1f sf s1f Hf Hte Hrs Ho).
+    eapply prune_frame; eauto. eapply outside_t_p; eauto. }
+  destruct rm as [rs|].
+  - rewrite <- E. eapply prune_frame; eauto.
+  - subst post. exact E.
+Qed.
+
+(* INSIDE, nil update mask: every (normalized) writable path holds exactly what the written message
+   has there — nothing if it has nothing — unless the reset mask touches it *)
+Theorem inside_nil_update : forall sch ty ws rm dst src post src' p,
+  schema_names_ok sch = true ->
+  conforms sch ty dst = true -> conforms sch ty src = true ->
+  fm_valid sch ty ws = true ->
+  merge sch ty None (Some ws) rm dst src = MOk post src' ->
+  In p (normalize_paths ws) -> outside_p (trie (mask_paths rm)) p ->
+  get_at p post = get_at p src.
+Proof.
+  intros sch ty ws rm dst src post src' p Hs Hcd Hcs Hv H Hin Hor.
+  destruct dst as [|df| |]; try discriminate. destruct src as [|sf| |]; try discriminate.
+  destruct ws as [|w ws]; [destruct Hin|].
+  destruct (valid_trie_facts sch ty (w :: ws) (VM sf) Hs Hv Hcs) as [Hrs Hte]. specialize (Hte ltac:(discriminate)).
+  destruct (valid_trie_paths sch ty (w :: ws) Hs Hv) as [Htrie Hnn].
+  assert (leaf_at (trie (w :: ws)) p) as Hl.
+  { rewrite Htrie. apply leaf_at_ins_all; auto. apply normalize_prefix_free. }
+  destruct (merge_nil_update_stages _ _ _ _ _ _ _ _ _ H) as [s1f [d1 [Hf [Hp Hr]]]].
+  destruct (nm_prune_is_msg _ _ _ Hp) as [d1f ->].
+  assert (get_at p (proto_merge sch ty (VM d1f) (VM s1f)) = get_at p (VM sf)) as E.
+  { rewrite merge_at_fresh.
+    - eapply filter_keeps; eauto.
+    - apply Hnn. exact Hin.
+    - eapply prune_clears; eauto. }
+  destruct rm as [rs|].
+  - rewrite <- E. eapply prune_frame; eauto.
+  - subst post. exact E.
+Qed.
+
+(* ------------------------------------------------------------------------------------------- *)
+(* NO PANIC: every pass of Merge succeeds on messages whose masked routes pass through messages  *)
+
+Lemma rsafe_t_VM : forall m f,
+  rsafe_t m (VM f) =
+  forallb (fun kx : string * value =>
+             let '(k, x) := kx in
+             match nm_lookup k m with
+             | None => true
+             | Some sub => nm_empty sub || (is_msg x && rsafe_t sub x)
+             end) f.
+Proof. reflexivity. Qed.
+
+Lemma rsafe_t_empty : forall m v, nm_empty m = true -> rsafe_t m v = true.
+Proof.
+  intros m v H. apply nm_empty_eq in H. subst m. destruct v as [|f| |]; try reflexivity.
+  rewrite rsafe_t_VM. apply forallb_forall. intros [k x] _. reflexivity.
+Qed.
+
+Lemma rsafe_t_sub : forall m f k x sub,
+  rsafe_t m (VM f) = true -> In (k, x) f -> nm_lookup k m = Some sub ->
+  rsafe_t sub x = true /\ (nm_empty sub = false -> is_msg x = true).
+Proof.
+  intros m f k x sub H Hin Hm. rewrite rsafe_t_VM, forallb_forall in H. specialize (H (k, x) Hin).
+  simpl in H. rewrite Hm in H. destruct (nm_empty sub) eqn:E.
+  - split; [apply rsafe_t_empty; exact E|discriminate].
+  - simpl in H. apply andb_true_iff in H. tauto.
+Qed.
+
+Theorem filter_total_t : forall v m, rsafe_t m v = true -> exists r, nm_filter m v = Some r.
+Proof.
+  induction v as [s|fs IH|l IH|kv IH] using value_ind'; intros m Hrs; try (simpl; eauto; fail).
+  rewrite nm_filter_fields. destruct (nm_empty m); [eauto|].
+  match goal with |- exists r, option_map VM ?o = Some r => assert (exists r, o = Some r) as [r Hr] end.
+  2:{ rewrite Hr. simpl. eauto. }
+  apply otraverse_total. intros [k x] Hin. cbv beta iota.
+  destruct (nm_lookup k m) as [sub|] eqn:El; [|eauto].
+  destruct (rsafe_t_sub _ _ _ _ _ Hrs Hin El) as [Hsx Hmx].
+  unfold filter_field. destruct (nm_empty sub) eqn:Es; [simpl; eauto|].
+  specialize (Hmx eq_refl). destruct x as [|fx| |]; try discriminate.
+  rewrite Forall_forall in IH. destruct (IH (k, VM fx) Hin sub Hsx) as [r Hr]. cbn [snd] in Hr. rewrite Hr. simpl. eauto.
+Qed.
+
+Theorem prune_total_t : forall v m, rsafe_t m v = true -> exists r, nm_prune m v = Some r.
+Proof.
+  induction v as [s|fs IH|l IH|kv IH] using value_ind'; intros m Hrs; try (simpl; eauto; fail).
+  rewrite nm_prune_fields. destruct (nm_empty m); [eauto|].
+  match goal with |- exists r, option_map VM ?o = Some r => assert (exists r, o = Some r) as [r Hr] end.
+  2:{ rewrite Hr. simpl. eauto. }
+  apply otraverse_total. intros [k x] Hin. cbv beta iota.
+  destruct (nm_lookup k m) as [sub|] eqn:El; [|eauto].
+  destruct (rsafe_t_sub _ _ _ _ _ Hrs Hin El) as [Hsx Hmx].
+  destruct (nm_empty sub) eqn:Es; [eauto|].
+  specialize (Hmx eq_refl). destruct x as [|fx| |]; try discriminate. unfold prune_field.
+  rewrite Forall_forall in IH. destruct (IH (k, VM fx) Hin sub Hsx) as [r Hr]. cbn [snd] in Hr. rewrite Hr. simpl. eauto.
+Qed.
+
+Theorem prune_empty_total : forall d fixed m s, rsafe_t m d = true -> exists r, prune_empty fixed m d s = Some r.
+Proof.
+  induction d as [x|fs IH|l IH|kv IH] using value_ind'; intros fixed m s Hrs; try (simpl; eauto; fail).
+  rewrite prune_empty_fields.
+  match goal with |- exists r, option_map VM ?o = Some r => assert (exists r, o = Some r) as [r Hr] end.
+  2:{ rewrite Hr. simpl. eauto. }
+  apply otraverse_total. intros [k d0] Hin. cbv beta iota.
+  destruct (nm_lookup k m) as [sub|] eqn:El; [|eauto].
+  destruct (rsafe_t_sub _ _ _ _ _ Hrs Hin El) as [Hsx Hmx].
+  destruct (vget k s) as [s0|].
+  - destruct (is_msg d0); [|eauto].
+    rewrite Forall_forall in IH. destruct (IH (k, d0) Hin fixed sub s0 Hsx) as [r Hr]. cbn [snd] in Hr. rewrite Hr. simpl. eauto.
+  - destruct (fixed && negb (nm_empty sub) && is_msg d0); [|eauto].
+    destruct (prune_total_t d0 sub Hsx) as [r Hr]. rewrite Hr. simpl. eauto.
+Qed.
+
+(* ... and every pass keeps that shape, for any other mask *)
+Lemma prune_field_cases : forall sub x x',
+  prune_field sub x = Some x' ->
+  x' = x \/ (is_msg x = true /\ nm_prune sub x = Some x') \/ (is_msg x = false /\ is_msg x' = false).
+Proof.
+  intros sub x x' H. unfold prune_field in H. destruct x as [s|f|l|kv].
+  - inversion H. auto.
+  - right. left. auto.
+  - right. right. destruct (otraverse _ l); inversion H. auto.
+  - discriminate.
+Qed.
+
+Definition keeps_rsafe (v v' : value) : Prop := forall m2, rsafe_t m2 v = true -> rsafe_t m2 v' = true.
+
+(* entry-wise criterion: every field of the result comes from a field of the same name whose value it
+   refines, shape-wise *)
+Lemma keeps_rsafe_fields : forall f f',
+  (forall k x', In (k, x') f' -> exists x, In (k, x) f /\ keeps_rsafe x x' /\ (is_msg x = true -> is_msg x' = true)) ->
+  keeps_rsafe (VM f) (VM f').
+Proof.
+  intros f f' H m2 Hrs. rewrite rsafe_t_VM. apply forallb_forall. intros [k x'] Hin.
+  destruct (H k x' Hin) as [x [Hx [Hk Hm]]].
+  destruct (nm_lookup k m2) as [sub2|] eqn:El; auto.
+  destruct (rsafe_t_sub _ _ _ _ _ Hrs Hx El) as [Hsx Hmx].
+  destruct (nm_empty sub2) eqn:Es; auto. simpl. rewrite (Hm (Hmx eq_refl)). simpl. apply Hk. exact Hsx.
+Qed.
+
+Lemma keeps_rsafe_refl : forall v, keeps_rsafe v v.
+Proof. intros v m2 H. exact H. Qed.
+
+Lemma keeps_rsafe_nonmsg : forall x x', is_msg x = false -> is_msg x' = false -> keeps_rsafe x x'.
+Proof. intros x x' H H' m2 _. destruct x'; try discriminate; reflexivity. Qed.
+
+Theorem prune_keeps_rsafe : forall v m v', nm_prune m v = Some v' -> keeps_rsafe v v'.
+Proof.
+  induction v as [s|fs IH|l IH|kv IH] using value_ind'; intros m v' H;
+    try (simpl in H; inversion H; apply keeps_rsafe_refl).
+  rewrite nm_prune_fields in H. destruct (nm_empty m); [inversion H; apply keeps_rsafe_refl|].
+  destruct (otraverse _ fs) as [fs'|] eqn:Eo; [|discriminate]. inversion H. subst v'. clear H.
+  apply keeps_rsafe_fields. intros k x' Hin.
+  change (exists x, In (fst (k, x'), x) fs /\ keeps_rsafe x (snd (k, x')) /\ (is_msg x = true -> is_msg (snd (k, x')) = true)).
+  apply (otraverse_forall _ (fun e : string * value => exists x, In (fst e, x) fs /\ keeps_rsafe x (snd e) /\
+                                                         (is_msg x = true -> is_msg (snd e) = true)) _ _ Eo); auto.
+  intros [k0 x0] ys Hin0 HF y Hy. cbv beta iota in HF.
+  destruct (nm_lookup k0 m) as [sub|].
+  - destruct (nm_empty sub); [inversion HF; subst; destruct Hy|].
+    destruct (prune_field sub x0) as [x0'|] eqn:Ef; inversion HF. subst ys. destruct Hy as [<-|[]]. simpl.
+    exists x0. split; auto.
+    destruct (prune_field_cases _ _ _ Ef) as [->|[[Hm Hp]|[Hm Hm']]].
+    + split; [apply keeps_rsafe_refl|auto].
+    + rewrite Forall_forall in IH. split; [apply (IH (k0, x0) Hin0 _ _ Hp)|].
+      intros _. destruct x0; try discriminate. destruct (nm_prune_is_msg _ _ _ Hp) as [? ->]. reflexivity.
+    + split; [apply keeps_rsafe_nonmsg; auto|congruence].
+  - inversion HF. subst ys. destruct Hy as [<-|[]]. simpl. exists x0. split; auto. split; [apply keeps_rsafe_refl|auto].
+Qed.
+
+Lemma prune_empty_is_msg : forall fixed m f s d', prune_empty fixed m (VM f) s = Some d' -> exists f', d' = VM f'.
+Proof. intros. rewrite prune_empty_fields in H. destruct (otraverse _ f); inversion H. eauto. Qed.
+
+Theorem prune_empty_keeps_rsafe : forall d fixed m s d', prune_empty fixed m d s = Some d' -> keeps_rsafe d d'.
+Proof.
+  induction d as [x|fs IH|l IH|kv IH] using value_ind'; intros fixed m s d' H;
+    try (simpl in H; inversion H; apply keeps_rsafe_refl).
+  rewrite prune_empty_fields in H.
+  destruct (otraverse _ fs) as [fs'|] eqn:Eo; [|discriminate]. inversion H. subst d'. clear H.
+  apply keeps_rsafe_fields. intros k x' Hin.
+  change (exists x, In (fst (k, x'), x) fs /\ keeps_rsafe x (snd (k, x')) /\ (is_msg x = true -> is_msg (snd (k, x')) = true)).
+  apply (otraverse_forall _ (fun e : string * value => exists x, In (fst e, x) fs /\ keeps_rsafe x (snd e) /\
+                                                         (is_msg x = true -> is_msg (snd e) = true)) _ _ Eo); auto.
+  intros [k0 d0] ys Hin0 HF y Hy. cbv beta iota in HF.
+  assert (forall z, y = (k0, z) -> keeps_rsafe d0 z -> (is_msg d0 = true -> is_msg z = true) ->
+                    exists x, In (fst y, x) fs /\ keeps_rsafe x (snd y) /\ (is_msg x = true -> is_msg (snd y) = true)) as Hdone.
+  { intros z -> A B. exists d0. simpl. auto. }
+  destruct (nm_lookup k0 m) as [sub|].
+  - destruct (vget k0 s) as [s0|].
+    + destruct (is_msg d0) eqn:Edm.
+      * destruct (prune_empty fixed sub d0 s0) as [z|] eqn:Ep; inversion HF. subst ys. destruct Hy as [<-|[]].
+        apply (Hdone z eq_refl).
+        -- rewrite Forall_forall in IH. apply (IH (k0, d0) Hin0 _ _ _ _ Ep).
+        -- intros _. destruct d0; try discriminate. destruct (prune_empty_is_msg _ _ _ _ _ Ep) as [? ->]. reflexivity.
+      * inversion HF. subst ys. destruct Hy as [<-|[]]. apply (Hdone d0 eq_refl); [apply keeps_rsafe_refl|intros H0; try exact H0; congruence].
+    + destruct (fixed && negb (nm_empty sub) && is_msg d0) eqn:Ec.
+      * destruct (nm_prune sub d0) as [z|] eqn:Ep; inversion HF. subst ys. destruct Hy as [<-|[]].
+        apply (Hdone z eq_refl).
+        -- eapply prune_keeps_rsafe; eauto.
+        -- intros _. apply andb_true_iff in Ec. destruct Ec as [_ Ec]. destruct d0; try discriminate.
+           destruct (nm_prune_is_msg _ _ _ Ep) as [? ->]. reflexivity.
+      * inversion HF. subst ys. destruct Hy.
+  - inversion HF. subst ys. destruct Hy as [<-|[]]. apply (Hdone d0 eq_refl); [apply keeps_rsafe_refl|intros H0; try exact H0; congruence].
+Qed.
+
+Theorem merge_keeps_rsafe : forall s sch ty df m2,
+  rsafe_t m2 (VM df) = true -> rsafe_t m2 s = true -> is_msg s = true ->
+  rsafe_t m2 (proto_merge sch ty (VM df) s) = true.
+Proof.
+  induction s as [x|sf IH|l IH|kv IH] using value_ind'; intros sch ty df m2 Hd Hs Hm; try discriminate.
+  rewrite proto_merge_fields. rewrite rsafe_t_VM. rewrite forallb_app. apply andb_true_iff. split.
+  - apply forallb_forall. intros [k y] Hin. apply in_flat_map in Hin. destruct Hin as [[k0 d0] [Hin0 Hy]].
+    destruct (alookup k0 sf) as [x0|] eqn:Es.
+    + destruct Hy as [E|[]]. inversion E. subst k y. clear E.
+      destruct (nm_lookup k0 m2) as [sub2|] eqn:El; auto.
+      destruct (rsafe_t_sub _ _ _ _ _ Hd Hin0 El) as [Hsd Hmd].
+      destruct (rsafe_t_sub _ _ _ _ _ Hs (alookup_in _ _ _ Es) El) as [Hsx Hmx].
+      destruct (nm_empty sub2) eqn:Ee; auto. simpl.
+      specialize (Hmd eq_refl). specialize (Hmx eq_refl).
+      destruct x0 as [|fx| |]; try discriminate. destruct d0 as [|fd| |]; try discriminate.
+      unfold merge_val. rewrite proto_merge_fields at 1. simpl is_msg. simpl andb.
+      rewrite Forall_forall in IH. apply (IH (k0, VM fx) (alookup_in _ _ _ Es)); auto.
+    + destruct (cleared_by sch ty sf k0); [destruct Hy|]. destruct Hy as [E|[]]. inversion E. subst k y.
+      rewrite rsafe_t_VM, forallb_forall in Hd. apply (Hd (k0, d0) Hin0).
+  - apply forallb_forall. intros [k y] Hin. apply in_flat_map in Hin. destruct Hin as [[k0 x0] [Hin0 Hy]].
+    destruct (alookup k0 df); [destruct Hy|]. destruct Hy as [E|[]]. inversion E. subst k y.
+    rewrite rsafe_t_VM, forallb_forall in Hs. apply (Hs (k0, x0) Hin0).
+Qed.
+
+Lemma valid_mask_rsafe : forall sch ty m v,
+  schema_names_ok sch = true -> valid_or sch ty m = true -> conforms sch ty v = true ->
+  rsafe_t (trie (mask_paths m)) v = true.
+Proof.
+  intros sch ty [ps|] v Hs Hv Hc; simpl mask_paths.
+  - apply (valid_trie_facts sch ty ps v Hs Hv Hc).
+  - apply rsafe_t_empty. reflexivity.
+Qed.
+
+Lemma merge_tail_total : forall sch ty Tm rm d1f s1f,
+  rsafe_t Tm (VM d1f) = true -> rsafe_t Tm (VM s1f) = true ->
+  rsafe_t (trie (mask_paths rm)) (VM d1f) = true -> rsafe_t (trie (mask_paths rm)) (VM s1f) = true ->
+  match nm_filter Tm (VM s1f) with
+  | Some src2 =>
+      match prune_empty true Tm (proto_merge sch ty (VM d1f) src2) src2 with
+      | Some dst3 =>
+          match rm with
+          | Some rs =>
+              match nm_prune (nested_of_paths (normalize_paths rs)) dst3 with
+              | Some dst4 => MOk dst4 src2
+              | None => MPanic
+              end
+          | None => MOk dst3 src2
+          end
+      | None => MPanic
+      end
+  | None => MPanic
+  end <> MPanic.
+Proof.
+  intros sch ty Tm rm d1f s1f Hd Hs Hdr Hsr.
+  destruct (filter_total_t _ _ Hs) as [s2 E2]. rewrite E2.
+  destruct (nm_filter_is_msg _ _ _ E2) as [s2f ->].
+  destruct (filter_preserves _ _ _ E2) as [_ K2].
+  pose proof (merge_keeps_rsafe (VM s2f) sch ty d1f Tm Hd (K2 _ Hs) eq_refl) as Hm2.
+  pose proof (merge_keeps_rsafe (VM s2f) sch ty d1f _ Hdr (K2 _ Hsr) eq_refl) as Hm2r.
+  destruct (prune_empty_total _ true Tm (VM s2f) Hm2) as [d3 E3]. rewrite E3.
+  destruct rm as [rs|]; [|discriminate].
+  pose proof (prune_empty_keeps_rsafe _ _ _ _ _ E3 _ Hm2r) as H3. simpl mask_paths in H3. unfold trie in H3.
+  destruct (prune_total_t _ _ H3) as [d4 E4]. rewrite E4. discriminate.
+Qed.
+
+(* NO PANIC: conformant messages, every mask valid for the type (the update and reset masks are
+   validated by Validate; the writable mask is the developer's) — whatever their mutual relation *)
+Theorem merge_never_panics : forall sch ty um wm rm dst src,
+  schema_names_ok sch = true ->
+  conforms sch ty dst = true -> conforms sch ty src = true ->
+  valid_or sch ty um = true -> valid_or sch ty wm = true -> valid_or sch ty rm = true ->
+  merge sch ty um wm rm dst src <> MPanic.
+Proof.
+  intros sch ty um wm rm dst src Hs Hcd Hcs Hu Hw Hr.
+  pose proof (valid_mask_rsafe sch ty um dst Hs Hu Hcd) as Hud.
+  pose proof (valid_mask_rsafe sch ty um src Hs Hu Hcs) as Hus.
+  pose proof (valid_mask_rsafe sch ty wm dst Hs Hw Hcd) as Hwd.
+  pose proof (valid_mask_rsafe sch ty wm src Hs Hw Hcs) as Hws.
+  pose proof (valid_mask_rsafe sch ty rm dst Hs Hr Hcd) as Hrd.
+  pose proof (valid_mask_rsafe sch ty rm src Hs Hr Hcs) as Hrs.
+  destruct dst as [|df| |]; try discriminate. destruct src as [|sf| |]; try discriminate.
+  unfold merge, merge_gen. cbv zeta. fold (trie (mask_paths um)).
+  destruct wm as [[|w ws]|]; cbv iota beta.
+  - discriminate.
+  - simpl mask_paths in Hwd, Hws. unfold trie in Hwd, Hws.
+    destruct (filter_total_t _ _ Hws) as [s1 E1]. rewrite E1.
+    destruct (nm_filter_is_msg _ _ _ E1) as [s1f ->].
+    destruct (filter_preserves _ _ _ E1) as [_ K1].
+    destruct um as [[|u us]|].
+    + discriminate.
+    + apply merge_tail_total; auto.
+    + destruct (prune_total_t _ _ Hwd) as [d1 Ed]. rewrite Ed.
+      destruct (nm_prune_is_msg _ _ _ Ed) as [d1f ->].
+      pose proof (prune_keeps_rsafe _ _ _ Ed) as Kd.
+      apply merge_tail_total; auto.
+  - rewrite nm_filter_empty_mask.
+    destruct um as [[|u us]|].
+    + discriminate.
+    + apply merge_tail_total; auto.
+    + apply merge_tail_total; auto; reflexivity.
+Qed.
+
+(* write-level corollary: Value.Set never panics in Merge when the configured writable masks are valid *)
+Lemma fm_valid_subset : forall sch ty ps qs,
+  fm_valid sch ty ps = true -> (forall q, In q qs -> In q ps) -> fm_valid sch ty qs = true.
+Proof.
+  unfold fm_valid. intros sch ty ps qs H Hs. rewrite forallb_forall in *. intros q Hq. apply H. apply Hs. exact Hq.
+Qed.
+
+Lemma fm_valid_app : forall sch ty a b, fm_valid sch ty a = true -> fm_valid sch ty b = true -> fm_valid sch ty (a ++ b) = true.
+Proof. unfold fm_valid. intros sch ty a b Ha Hb. rewrite forallb_app. apply andb_true_iff. split; assumption. Qed.
+
+Lemma effective_writable_valid : forall sch ty allw resw more,
+  valid_or sch ty resw = true -> valid_or sch ty more = true ->
+  valid_or sch ty (effective_writable allw resw more) = true.
+Proof.
+  intros sch ty allw resw more Hr Hm. unfold effective_writable. destruct allw; [reflexivity|].
+  destruct resw as [w|]; [|reflexivity]. simpl in *. unfold fm_union.
+  eapply fm_valid_subset; [|apply normalize_subset].
+  apply fm_valid_app; auto. destruct more as [x|]; [|reflexivity]. simpl in Hm.
+  eapply fm_valid_subset; [exact Hm|apply normalize_subset].
+Qed.
+
+Theorem write_never_panics : forall sch ty allw resw more um rm stored written,
+  schema_names_ok sch = true ->
+  conforms sch ty stored = true -> conforms sch ty written = true ->
+  valid_or sch ty resw = true -> valid_or sch ty more = true ->
+  write sch ty allw resw more um rm stored written <> WPanic.
+Proof.
+  intros sch ty allw resw more um rm stored written Hs Hcs Hcw Hr Hm. unfold write.
+  destruct (Z.eqb_spec (validate_update sch ty um (effective_writable allw resw more) rm) code_ok) as [E|E];
+    simpl; [|discriminate].
+  apply validate_update_ok_iff in E. destruct E as [Hu [_ Hrm]].
+  apply valid_or_iff in Hu. apply valid_or_iff in Hrm.
+  pose proof (merge_never_panics sch ty um (effective_writable allw resw more) rm stored written Hs Hcs Hcw Hu
+                (effective_writable_valid _ _ _ _ _ Hr Hm) Hrm) as Hn.
+  destruct (merge sch ty um (effective_writable allw resw more) rm stored written); [discriminate|congruence].
+Qed.
+
+(* ------------------------------------------------------------------------------------------- *)
+(* FRAME, exactly: what happens to the other members of a oneof                                 *)
+
+(* a field of the written message that the mask passes through is another member of k's oneof *)
+Definition sib_written (sch : schema) (ty : string) (m : nmask) (sf : list (string * value)) (k : string) : bool :=
+  existsb (fun kx : string * value =>
+             match nm_lookup (fst kx) m with
+             | Some _ => existsb (String.eqb k) (oneof_siblings sch ty (fst kx))
+             | None => false
+             end) sf.
+
+(* position q is cleared as a side effect: at some level, the field on q's way is not itself
+   written, and another member of its oneof, named by the mask, is *)
+Fixpoint cleared_along (sch : schema) (ty : string) (m : nmask) (src : value) (q : path) : bool :=
+  match q with
+  | [] => false
+  | k :: r =>
+      match nm_lookup k m, vget k src with
+      | Some sub, Some x => cleared_along sch (sub_type sch ty k) sub x r
+      | _, _ => sib_written sch ty m (fields_of src) k
+      end
+  end.
+
+Lemma filter_key_facts : forall m sf s2f k,
+  nm_filter m (VM sf) = Some (VM s2f) -> nm_empty m = false ->
+  (In k (akeys s2f) <-> In k (akeys sf) /\ nm_lookup k m <> None).
+Proof.
+  intros m sf s2f k Hf Hne. pose proof (filter_lookup _ _ _ Hf Hne k) as Hfl.
+  unfold vget in Hfl. simpl fields_of in Hfl. split.
+  - intros Hin. destruct (alookup k s2f) as [y|] eqn:E; [|apply alookup_none_notin in E; contradiction].
+    destruct (nm_lookup k m) as [sub|]; [|discriminate].
+    destruct (alookup k sf) as [x|] eqn:Es; [|discriminate]. split; [eapply alookup_some_in_keys; eauto|discriminate].
+  - intros [Hin Hl]. destruct (nm_lookup k m) as [sub|] eqn:El; [|congruence].
+    destruct (alookup k sf) as [x|] eqn:Es; [|apply alookup_none_notin in Es; contradiction].
+    destruct (filter_field sub x) as [y|] eqn:Ef.
+    + eapply alookup_some_in_keys; eauto.
+    + exfalso. rewrite nm_filter_fields, Hne in Hf.
+      destruct (otraverse _ sf) as [l'|] eqn:Eo; [|discriminate].
+      apply (otraverse_some_all _ _ _ Eo (k, x) (alookup_in _ _ _ Es)). cbv beta iota. rewrite El, Ef. reflexivity.
+Qed.
+
+Lemma cleared_by_sib_written : forall sch ty m sf s2f k,
+  nm_filter m (VM sf) = Some (VM s2f) -> nm_empty m = false ->
+  cleared_by sch ty s2f k = sib_written sch ty m sf k.
+Proof.
+  intros sch ty m sf s2f k Hf Hne. unfold cleared_by, sib_written.
+  apply Bool.eq_iff_eq_true. rewrite !existsb_exists. split.
+  - intros [[k' y] [Hin Hs]]. simpl in Hs.
+    assert (In k' (akeys s2f)) as Hk by (unfold akeys; apply in_map_iff; exists (k', y); auto).
+    apply (filter_key_facts _ _ _ k' Hf Hne) in Hk. destruct Hk as [Hk Hl].
+    unfold akeys in Hk. apply in_map_iff in Hk. destruct Hk as [[k0 x] [E Hx]]. simpl in E. subst k0.
+    exists (k', x). split; auto. simpl. destruct (nm_lookup k' m); [exact Hs|congruence].
+  - intros [[k' x] [Hin Hs]]. simpl in Hs. destruct (nm_lookup k' m) as [sub|] eqn:El; [|discriminate].
+    assert (In k' (akeys s2f)) as Hk.
+    { apply (filter_key_facts _ _ _ k' Hf Hne). split; [|congruence].
+      unfold akeys. apply in_map_iff. exists (k', x). auto. }
+    unfold akeys in Hk. apply in_map_iff in Hk. destruct Hk as [[k0 y] [E Hy]]. simpl in E. subst k0.
+    exists (k', y). split; auto.
+Qed.
+
+Theorem frame_tail_exact : forall q sch ty m df sf post,
+  tailf true sch ty m (VM df) (VM sf) = Some post ->
+  wfv (VM df) = true -> wfv (VM sf) = true -> rsafe_t m (VM sf) = true ->
+  nm_empty m = false -> outside_p m q ->
+  get_at q post = if cleared_along sch ty m (VM sf) q then None else get_at q (VM df).
+Proof.
+  induction q as [|k r IH]; intros sch ty m df sf post Ht Hwd Hws Hrs Hne Ho; [destruct Ho|].
+  assert (exists s2f, nm_filter m (VM sf) = Some (VM s2f)) as [s2f Hf].
+  { unfold tailf in Ht. destruct (nm_filter m (VM sf)) as [s2|] eqn:Ef; [|discriminate].
+    destruct (nm_filter_is_msg _ _ _ Ef) as [s2f ->]. eauto. }
+  rewrite !get_at_cons.
+  rewrite (tail_lookup _ _ _ _ _ _ _ _ Hf Ht (wfv_nodup _ Hwd) (wfv_nodup _ Hws) k).
+  pose proof (proto_merge_lookup sch ty df s2f k) as Hl.
+  assert (proto_merge sch ty (VM df) (VM s2f) = VM (fields_of (proto_merge sch ty (VM df) (VM s2f)))) as HP.
+  { rewrite proto_merge_fields. reflexivity. }
+  assert (prune_empty true m (proto_merge sch ty (VM df) (VM s2f)) (VM s2f) = Some post) as Hpe.
+  { unfold tailf in Ht. rewrite Hf in Ht. exact Ht. }
+  remember (proto_merge sch ty (VM df) (VM s2f)) as P eqn:EP. clear EP. rewrite HP in Hpe.
+  unfold vget in Hl at 1.
+  rewrite (cleared_by_sib_written _ _ _ _ _ k Hf Hne) in *.
+  pose proof (filter_lookup _ _ _ Hf Hne k) as Hfl. unfold vget in Hfl at 1. simpl fields_of in Hfl.
+  simpl in Ho. simpl cleared_along. change (vget k (VM sf)) with (alookup k sf). change (vget k (VM df)) with (alookup k df).
+  simpl fields_of.
+  destruct (nm_lookup k m) as [sub|] eqn:El.
+  - destruct Ho as [Hsne Ho]. rewrite Hsne. simpl negb. simpl andb.
+    assert (r <> []) as Hr by (eapply outside_p_nonnil; eauto).
+    destruct (alookup k s2f) as [x'|] eqn:Es2.
+    + destruct (alookup k sf) as [x|] eqn:Es; [|discriminate].
+      destruct (rsafe_t_field _ _ _ _ _ Hrs Es El Hsne) as [Hxm Hxs].
+      destruct x as [|fx| |]; try discriminate.
+      unfold filter_field in Hfl. rewrite Hsne in Hfl. symmetry in Hfl.
+      destruct (nm_filter_is_msg _ _ _ Hfl) as [fx' ->].
+      set (dk := match alookup k df with Some (VM fd) => fd | _ => [] end).
+      assert (match alookup k df with
+              | Some d => Some (merge_val sch ty k (Some d) (VM fx'))
+              | None => Some (VM fx')
+              end = Some (proto_merge sch (sub_type sch ty k) (VM dk) (VM fx'))) as Em.
+      { unfold dk, merge_val. destruct (alookup k df) as [[| fd | |]|]; try reflexivity.
+        rewrite merge_into_empty. reflexivity. }
+      rewrite Em in *.
+      assert (is_msg (proto_merge sch (sub_type sch ty k) (VM dk) (VM fx')) = true) as Hmm.
+      { rewrite proto_merge_fields. reflexivity. }
+      rewrite Hmm.
+      pose proof (prune_empty_entry_ok _ _ _ _ _ k _ Hpe Hl) as Hok. rewrite El in Hok.
+      unfold vget in Hok. simpl fields_of in Hok. rewrite Es2 in Hok. specialize (Hok Hmm).
+      destruct (prune_empty true sub (proto_merge sch (sub_type sch ty k) (VM dk) (VM fx')) (VM fx')) as [pk|] eqn:Ep;
+        [|congruence].
+      assert (tailf true sch (sub_type sch ty k) sub (VM dk) (VM fx) = Some pk) as Ht'.
+      { unfold tailf. rewrite Hfl. exact Ep. }
+      rewrite (IH _ _ _ _ _ _ Ht'); auto.
+      * destruct (cleared_along sch (sub_type sch ty k) sub (VM fx) r); [reflexivity|].
+        unfold dk. destruct (alookup k df) as [[| fd | |]|] eqn:Ed; try reflexivity;
+          (destruct r; [congruence|reflexivity]).
+      * unfold dk. destruct (alookup k df) as [[| fd | |]|] eqn:Ed; try reflexivity.
+        exact (wfv_field df k _ Hwd Ed).
+      * exact (wfv_field sf k _ Hws Es).
+    + assert (alookup k sf = None) as Es.
+      { destruct (alookup k sf) as [x|] eqn:Es; auto.
+        destruct (rsafe_t_field _ _ _ _ _ Hrs Es El Hsne) as [Hxm _]. destruct x as [|fx| |]; try discriminate.
+        unfold filter_field in Hfl. rewrite Hsne in Hfl.
+        exfalso. rewrite nm_filter_fields, Hne in Hf.
+        destruct (otraverse _ sf) as [l'|] eqn:Eo; [|discriminate].
+        apply (otraverse_some_all _ _ _ Eo (k, VM fx) (alookup_in _ _ _ Es)).
+        cbv beta iota. rewrite El. unfold filter_field. rewrite Hsne. rewrite <- Hfl. reflexivity. }
+      rewrite Es.
+      destruct (alookup k df) as [d|] eqn:Ed; [|destruct (sib_written sch ty m sf k); reflexivity].
+      destruct (sib_written sch ty m sf k) eqn:Esw; [reflexivity|].
+      destruct (is_msg d) eqn:Edm.
+      * pose proof (prune_empty_entry_ok _ _ _ _ _ k _ Hpe Hl) as Hok. rewrite El in Hok.
+        unfold vget in Hok. simpl fields_of in Hok. rewrite Es2, Hsne, Edm in Hok. specialize (Hok eq_refl).
+        destruct (nm_prune sub d) as [d'|] eqn:Ep; [|congruence].
+        eapply prune_frame; eauto.
+      * rewrite get_at_nonmsg; auto.
+  - rewrite Hfl. destruct (alookup k df) as [d|]; destruct (sib_written sch ty m sf k); reflexivity.
+Qed.
+
+(* the written message as Merge sees it after the writable filter *)
+Definition writable_filtered (wm : mask) (src src1 : value) : Prop :=
+  match wm with
+  | None => src1 = src
+  | Some ws => nm_filter (trie ws) src = Some src1
+  end.
+
+(* FRAME, exact: a position the update and reset masks do not reach is unchanged — unless, on its
+   way, a field that is not itself written is a member of a oneof another member of which the mask
+   names and the written message sets: then it is cleared (setting a oneof member clears the others) *)
+Theorem frame_exact : forall sch ty ups wm rm dst src post src',
+  schema_names_ok sch = true ->
+  conforms sch ty dst = true -> conforms sch ty src = true ->
+  fm_valid sch ty ups = true -> ups <> [] -> wm <> Some [] ->
+  merge sch ty (Some ups) wm rm dst src = MOk post src' ->
+  exists src1, writable_filtered wm src src1 /\
+    forall q, outside_p (trie ups) q -> outside_p (trie (mask_paths rm)) q ->
+              get_at q post = if cleared_along sch ty (trie ups) src1 q then None else get_at q dst.
+Proof.
+  intros sch ty ups wm rm dst src post src' Hs Hcd Hcs Hv Hne Hwn H.
+  destruct dst as [|df| |]; try discriminate. destruct src as [|sf| |]; try discriminate.
+  destruct (valid_trie_facts sch ty ups (VM sf) Hs Hv Hcs) as [Hrs Hte]. specialize (Hte Hne).
+  pose proof (conforms_wfv _ _ _ Hcd) as Hwd. pose proof (conforms_wfv _ _ _ Hcs) as Hws.
+  unfold merge, merge_gen in H. cbv zeta in H. simpl mask_paths in H. fold (trie ups) in H.
+  destruct ups as [|u0 us]; [congruence|]. set (ups := u0 :: us) in *.
+  assert (forall sf1,
+            wfv (VM sf1) = true -> rsafe_t (trie ups) (VM sf1) = true ->
+            match nm_filter (trie ups) (VM sf1) with
+            | Some src2 =>
+                match prune_empty true (trie ups) (proto_merge sch ty (VM df) src2) src2 with
+                | Some dst3 =>
+                    match rm with
+                    | Some rs =>
+                        match nm_prune (nested_of_paths (normalize_paths rs)) dst3 with
+                        | Some dst4 => MOk dst4 src2
+                        | None => MPanic
+                        end
+                    | None => MOk dst3 src2
+                    end
+                | None => MPanic
+                end
+            | None => MPanic
+            end = MOk post src' ->
+            forall q, outside_p (trie ups) q -> outside_p (trie (mask_paths rm)) q ->
+                      get_at q post = if cleared_along sch ty (trie ups) (VM sf1) q then None else get_at q (VM df)) as Hcore.
+  { intros sf1 Hw1 Hr1 Hc q Ho Hor.
+    destruct (nm_filter (trie ups) (VM sf1)) as [s2|] eqn:Ef; [|discriminate].
+    destruct (prune_empty true (trie ups) (proto_merge sch ty (VM df) s2) s2) as [d3|] eqn:Ep; [|discriminate].
+    assert (tailf true sch ty (trie ups) (VM df) (VM sf1) = Some d3) as Ht by (unfold tailf; rewrite Ef; exact Ep).
+    rewrite <- (frame_tail_exact q sch ty (trie ups) df sf1 d3 Ht Hwd Hw1 Hr1 Hte Ho).
+    destruct rm as [rs|].
+    - destruct (nm_prune (nested_of_paths (normalize_paths rs)) d3) as [d4|] eqn:Er; inversion Hc. subst.
+      eapply prune_frame; eauto.
+    - inversion Hc. reflexivity. }
+  destruct wm as [[|w ws]|]; cbv iota beta in H.
+  - congruence.
+  - destruct (nm_filter (nested_of_paths (normalize_paths (w :: ws))) (VM sf)) as [s1|] eqn:E1; [|discriminate].
+    destruct (nm_filter_is_msg _ _ _ E1) as [sf1 ->].
+    destruct (filter_preserves _ _ _ E1) as [A B].
+    exists (VM sf1). split; [exact E1|]. apply Hcore; auto.
+  - rewrite nm_filter_empty_mask in H. exists (VM sf). split; [reflexivity|]. apply Hcore; auto.
+Qed.
+
+(* WithMoreUpdateMask: a nil update mask ("all writable fields") stays nil; extra paths only ever add *)
+Theorem more_update_spec : forall um moreu,
+  effective_update None moreu = None /\
+  effective_update um None = um /\
+  (forall ps extra p, um = Some ps -> moreu = Some extra ->
+     exists qs, effective_update um moreu = Some qs /\
+                (In p (ps ++ extra) -> exists q, In q qs /\ is_prefix q p = true) /\
+                (In p qs -> In p (ps ++ extra))).
+Proof.
+  intros um moreu. split; [destruct moreu; reflexivity|]. split; [reflexivity|].
+  intros ps extra p -> ->. simpl. exists (fm_union ps extra). split; auto. unfold fm_union. split.
+  - apply normalize_covers.
+  - apply normalize_subset.
+Qed.
